@@ -15,8 +15,12 @@ import (
 	"fmt"
 	"path/filepath"
 	"reflect"
+	"runtime"
 	"sort"
+	"sync"
+	"sync/atomic"
 	"testing"
+	"time"
 
 	"github.com/Tnze/go-mc/data/packetid"
 
@@ -183,12 +187,113 @@ func TestDump(t *testing.T) {
 			tw.Emit(rec)
 		}
 	}
+	nct, nlook := concurrentPhase(tw, sup)
+	stats["concurrent_tables"], stats["concurrent_lookups"] = nct, nlook
 	if err := tw.Close(); err != nil {
 		t.Fatal(err)
 	}
 	stats["cells"], stats["tables"], stats["unknown_probes"], stats["absent_cells"] = ncells, ntables, len(unknown)*10, nabsent
 	stats["versions"], stats["samples"], stats["gomc_cells"] = len(sup), samples, len(gm)
 	tracefmt.WriteJSON("stats.json", stats)
+}
+
+// concurrentPhase: for each state and direction, one goroutine first alternates between protocols, then
+// several goroutines resolve different protocols at the same moment. Every distinct (requested protocol,
+// table handed out) pair is remembered (not judged) and afterwards read and logged like a sequential table.
+func concurrentPhase(tw *tracefmt.Writer, sup []int) (tables int, lookups int64) {
+	type pair struct {
+		p  int
+		pr *state.ProtocolRegistry
+	}
+	budget := time.Duration(tracefmt.EnvInt("VERIF_CONC_MS", 150)) * time.Millisecond
+	const workers = 8
+	for _, rg := range registries() {
+		// protocols spread over the supported range (the newest and oldest included), one per goroutine
+		var ps []int
+		for i := 0; i < workers; i++ {
+			ps = append(ps, sup[(len(sup)-1)*i/(workers-1)])
+		}
+		seen := make([]map[pair]bool, workers+1)
+		// alternating lookups by one goroutine
+		seen[workers] = map[pair]bool{}
+		for i := 0; i < 4*len(sup); i++ {
+			p := sup[(i*7)%len(sup)]
+			seen[workers][pair{p, rg.r.ProtocolRegistry(proto.Protocol(p))}] = true
+			q := sup[len(sup)-1-(i%len(sup))]
+			seen[workers][pair{q, rg.r.ProtocolRegistry(proto.Protocol(q))}] = true
+			lookups += 2
+		}
+		var wg sync.WaitGroup
+		var n atomic.Int64
+		start := make(chan struct{})
+		for w := 0; w < workers; w++ {
+			seen[w] = map[pair]bool{}
+			wg.Add(1)
+			go func(w int) {
+				defer wg.Done()
+				p := ps[w]
+				<-start
+				deadline := time.Now().Add(budget)
+				for k := 0; ; k++ {
+					pr := rg.r.ProtocolRegistry(proto.Protocol(p))
+					if pr == nil || pr.Protocol != proto.Protocol(p) || k&1023 == 0 {
+						seen[w][pair{p, pr}] = true // (the comparison only limits what is remembered)
+					}
+					if k&255 == 0 {
+						if time.Now().After(deadline) {
+							n.Add(int64(k))
+							return
+						}
+						runtime.Gosched()
+					}
+				}
+			}(w)
+		}
+		close(start)
+		wg.Wait()
+		lookups += n.Load()
+		all := map[pair]bool{}
+		for _, m := range seen {
+			for k := range m {
+				all[k] = true
+			}
+		}
+		var keys []pair
+		for k := range all {
+			keys = append(keys, k)
+		}
+		sort.Slice(keys, func(i, j int) bool {
+			if keys[i].p != keys[j].p {
+				return keys[i].p < keys[j].p
+			}
+			return keys[i].pr != nil && (keys[j].pr == nil || keys[i].pr.Protocol < keys[j].pr.Protocol)
+		})
+		types := allTypes(rg.r)
+		for _, k := range keys {
+			if k.pr == nil {
+				tw.Emit(tracefmt.Rec{"ev": "ctable", "state": rg.state, "dir": rg.dir, "proto": k.p, "reports": -1,
+					"byType": []cell{}, "byId": []cell{}})
+				tables++
+				continue
+			}
+			bt, bi := observe(k.pr, types)
+			tw.Emit(tracefmt.Rec{"ev": "ctable", "state": rg.state, "dir": rg.dir, "proto": k.p,
+				"reports": int(k.pr.Protocol), "byType": bt, "byId": bi})
+			tables++
+			have := map[string]int{}
+			for _, c := range bt {
+				have[c.T] = c.ID
+			}
+			for _, ty := range types {
+				id, ok := have[ty.String()]
+				if !ok {
+					id = -1
+				}
+				tw.Emit(tracefmt.Rec{"ev": "ccell", "state": rg.state, "dir": rg.dir, "proto": k.p, "t": ty.String(), "id": id})
+			}
+		}
+	}
+	return
 }
 
 // The go-mc constants of the non-play states are iota blocks without stringer names.
